@@ -49,6 +49,9 @@ fn first_diff(a: &str, b: &str) -> String {
 fn child_mode(flows: &[LazyFlow]) -> bool {
     let Ok(spec) = std::env::var("VERIF_E5_CHILD") else { return false };
     println!();
+    // the shim (if any) is already loaded into this process; keep it away from the cargo/rustc
+    // processes that `compiled()` spawns
+    unsafe { std::env::remove_var("LD_PRELOAD") };
     for item in spec.split(';').filter(|s| !s.is_empty()) {
         let mut it = item.split(',');
         let (Some(name), Some(seed), Some(hexb)) = (it.next(), it.next(), it.next()) else { continue };
